@@ -384,8 +384,7 @@ fn gen_dispatch(ch: &mut Chunker, r: &mut Rng, prop: &str, scale: usize) {
             if n >= 4 && r.chance(1, 3) {
                 ws[2] = ws[1];
             }
-            let sp = *r.pick(&[Splitter::None, Splitter::Hyphen, Splitter::Every2, Splitter::Every3]);
-            let sp = if line.contains('\u{1b}') && matches!(sp, Splitter::Every2 | Splitter::Every3) { Splitter::Hyphen } else { sp };
+            let sp = *r.pick(&[Splitter::None, Splitter::Hyphen, Splitter::Every2, Splitter::Every3, Splitter::Half]);
             if prop != "C03" {
                 rec_dispatch(ch, &line, *r.pick(seps), sp, Alg::FF, &ws);
             }
@@ -604,9 +603,6 @@ fn gen_c05(ch: &mut Chunker, r: &mut Rng, _thorough: bool, scale: usize) {
         for w in widths {
             let mut o = base.clone();
             o.width = w;
-            if text.contains('\u{1b}') && matches!(o.splitter, Splitter::Every2 | Splitter::Every3) {
-                o.splitter = Splitter::Hyphen;
-            }
             // the shortcut is only reachable with an empty applicable indent: cover both situations
             let pre: Vec<String> = if r.chance(1, 2) { vec![] } else { vec!["x".to_string()] };
             if r.chance(1, 2) {
@@ -688,9 +684,6 @@ pub fn gen_c08_pairs(ch: &mut Chunker, r: &mut Rng, scale: usize) {
             let w_ = *r.pick(&widths);
             let mut o1 = gen_opts(r, &ocfg, w_);
             o1.crlf = false;
-            if text.contains('\u{1b}') && matches!(o1.splitter, Splitter::Every2 | Splitter::Every3) {
-                o1.splitter = Splitter::Hyphen;
-            }
             let mut o2 = o1.clone();
             o1.ii = ii1.clone();
             o1.si = si1.clone();
@@ -760,10 +753,6 @@ fn gen_c09(ch: &mut Chunker, r: &mut Rng, _thorough: bool, scale: usize) {
                 o.si.clear();
             }
             o.crlf = crlf && r.chance(1, 2);
-            let esc = a.contains('\u{1b}') || b.contains('\u{1b}') || a2.contains('\u{1b}');
-            if esc && matches!(o.splitter, Splitter::Every2 | Splitter::Every3) {
-                o.splitter = Splitter::Hyphen;
-            }
             rec_c09(ch, &a, &b, &a2, &o);
             rec_fill(ch, &format!("{}{}{}", a, o.ending(), b), &o, "C09");
         }
@@ -889,6 +878,34 @@ fn gen_c14(ch: &mut Chunker, r: &mut Rng, thorough: bool, scale: usize) {
             o.splitter = Splitter::None;
             o.crlf = (i / 2 + w) % 3 == 0;
             rec_c14(ch, t, &o);
+        }
+    }
+    // every zero-width-character word followed / surrounded by a short plain word, every width from 1
+    for (zi, z) in ZW_WORDS.iter().enumerate() {
+        for (ai, a) in ["I", "to", "the", "x1"].iter().enumerate() {
+            for text in [format!("{} {}", z, a), format!("{} {} {}", a, z, a)] {
+                for w in 1..=display_width_oracle(&text).min(9) {
+                    let mut o = Opts::new(w);
+                    o.sep = Sep::Ascii;
+                    o.alg = Alg::FF;
+                    o.bw = (zi + ai + w) % 5 != 0;
+                    o.splitter = if (zi + ai) % 2 == 0 { Splitter::None } else { Splitter::Hyphen };
+                    rec_c14(ch, &text, &o);
+                }
+            }
+        }
+    }
+    // words containing zero-width characters (DEL, C1, ZWSP, combining marks ...) that get force-broken: every width from 1
+    for i in 0..60 * scale {
+        let n = r.range(2, 4);
+        let text = (0..n).map(|k| if (i + k) % 3 == 2 { *r.pick(ASCII_WORDS) } else { *r.pick(ZW_WORDS) }).collect::<Vec<_>>().join(" ");
+        for w in 1..=display_width_oracle(&text).min(9) {
+            let mut o = Opts::new(w);
+            o.sep = Sep::Ascii;
+            o.alg = Alg::FF;
+            o.bw = i % 4 != 0;
+            o.splitter = if i % 2 == 0 { Splitter::None } else { Splitter::Hyphen };
+            rec_c14(ch, &text, &o);
         }
     }
     let ocfg = OptCfg { indents: false, custom_splitters: false, algs: &[0, 0, 1, 2], crlf: true };
@@ -1342,13 +1359,13 @@ fn gen_c04(ch: &mut Chunker, r: &mut Rng, thorough: bool, scale: usize) {
             _ => format!("{}{}-{}\n{}", rand_margin(r), rand_word(r, 3), rand_word(r, 3), gen_margin_text(r)),
         });
     }
-    let ocfg = OptCfg { indents: true, custom_splitters: false, algs: &[0, 1, 2], crlf: true };
+    let ocfg = OptCfg { indents: true, custom_splitters: true, algs: &[0, 1, 2], crlf: true };
     for (i, t) in texts.iter().enumerate() {
         rec_dw(ch, t);
         for &sep in seps {
             rec_words(ch, t, sep);
         }
-        rec_split(ch, t, Splitter::Hyphen);
+        rec_split(ch, t, *r.pick(&[Splitter::Hyphen, Splitter::Hyphen, Splitter::Half, Splitter::Every2]));
         rec_break(ch, t, *r.pick(&widths), r.chance(1, 2));
         rec_unfill(ch, t);
         rec_dedent(ch, t);
